@@ -504,13 +504,16 @@ func (dd *msgpipelineDelivery) BodyNonAtomic(ctx context.Context, c module.Statu
 func (dd msgpipelineDelivery) Commit(ctx context.Context) error {
 	dd.close()
 
+	// Every delivery has to be closed, so keep going after a failure. The
+	// remaining ones are committed and not aborted since their recipients may
+	// have been told about success already (LMTP per-recipient statuses).
+	var commitErr error
 	for _, delivery := range dd.deliveries {
-		if err := delivery.Commit(ctx); err != nil {
-			// No point in Committing remaining deliveries, everything is broken already.
-			return err
+		if err := delivery.Commit(ctx); err != nil && commitErr == nil {
+			commitErr = err
 		}
 	}
-	return nil
+	return commitErr
 }
 
 func (dd *msgpipelineDelivery) close() {
